@@ -70,6 +70,10 @@ def body(ctx, case):
     from OpenPinch.classes.problem_table import ProblemTable
     from OpenPinch.lib.enums import PT
     slopes = case["slopes"]
+    global EQ
+    # a closing temperature within 1e-6 K of an existing row cannot become a row of its own (C08: no duplicates within
+    # tolerance); the curve may then deviate by at most |slope| x 2e-6 in enthalpy.  Exact (1e-9) for unit slopes.
+    EQ = 1e-9 if max(abs(x) for x in slopes) <= 128 else 1e-9 + max(abs(x) for x in slopes) * 2e-6
     Tin, Hin = build_gcc(ctx, slopes, case.get("sep", SEP))
     n = len(Tin)
     pt = ProblemTable({PT.T.value: list(Tin), PT.H_NET.value: list(Hin)})
@@ -144,6 +148,7 @@ def cases(tier, seed):
             out.append({"slopes": list(sv)})
         out.append({"slopes": [1, -1, 1, -1, 1, 1]})
         out.append({"slopes": [-1, -1, 1, -1, 1, -1]})
+        out += steep_cases(3) + steep_cases(4)
     else:
         for n in (2, 3, 4, 5, 6):
             for sv in itertools.product((-1, 0, 1), repeat=n - 1):
@@ -157,6 +162,24 @@ def cases(tier, seed):
         for sv in itertools.product((-1, 1), repeat=4):
             for mag in (Fraction(1, 128), 128):
                 out.append({"slopes": [float(s * mag) if i % 2 else s for i, s in enumerate(sv)], "sep": 1e-3})
+        out += steep_cases(4) + steep_cases(5)
+    return out
+
+
+def steep_cases(n):
+    """One segment 2^21 times steeper than the rest: a pocket then closes within 1e-6 K of an existing row (no new row is
+    inserted) although the enthalpies differ by >= sep."""
+    out = []
+    for sv in itertools.product((-1, 1), repeat=n - 1):
+        for pos in range(n - 1):
+            sl = [float(s * 2 ** 21) if i == pos else s for i, s in enumerate(sv)]
+            out.append({"slopes": sl, "steep": pos})
+        for p1 in range(n - 1):
+            for p2 in range(p1 + 1, n - 1):
+                if sv[p1] == sv[p2]:
+                    continue
+                sl = [float(s * 2 ** 21) if i in (p1, p2) else s for i, s in enumerate(sv)]
+                out.append({"slopes": sl, "steep": [p1, p2]})
     return out
 
 
